@@ -48,6 +48,8 @@ def cfgs_with_O0(tier, inc):
     return res
 
 
+FPREF = [("ref/fpref.cpp", ["-O0", "-frounding-math", "-ffp-contract=off", "-w"])]
+
 PROPS = {
     "C01": {"id": "C01", "source": "c01.cpp", "files": INT_VEC_FILES, "min_configs": {"quick": 8, "thorough": 30},
             "configs": cfgs_with_san, "ub_is_violation": True, "digest_binding": True},
@@ -63,10 +65,17 @@ PROPS = {
             "optional_classes": ["range_ends_at_guard_page", "range_starts_after_guard_page", "wild_index_in_inactive_lane", "n_zero_pointer_into_guard_page"]},
     "C09": {"id": "C09", "source": "c08.cpp", "cxxflags": ["-DVP_PROP_C09"], "files": INT_VEC_FILES + FLT_VEC_FILES, "min_configs": {"quick": 8, "thorough": 30}, "configs": cfgs_with_O0,
             "optional_classes": ["unaligned_address", "negative_index", "ordinary"]},
+    "C10": {"id": "C10", "source": "c10.cpp", "files": FLT_VEC_FILES + SCALAR_FILES[8:], "min_configs": {"quick": 8, "thorough": 30},
+            "cxxflags": ["-frounding-math", "-ffp-contract=off"], "ref_sources": FPREF, "max_success": {"quick": 1000, "thorough": 10000}},
     "C02": {"id": "C02", "source": "c02.cpp", "files": INT_VEC_FILES + FLT_VEC_FILES, "min_configs": {"quick": 8, "thorough": 30}, "digest_binding": True},
 }
 
 MANIFEST_TEXT = {
+    "C10": {
+        "technique": "property-based testing: float lattice cross products + rapidcheck bit patterns x four rounding modes, differential against the scalar IEEE operation executed in a reference TU compiled without AVEL (-O0 -frounding-math), binary64 second opinion for binary32, per build configuration",
+        "level": "Generated-input search over operand pairs (every exponent x boundary mantissas, zeros, subnormals, infinities, quiet/signalling NaNs, halfway cases, random patterns) x {+,-,*,/, compound forms, ++/--, unary minus, sqrt, scalar sqrt} x 4 rounding modes on every float/double vector type incl. width 1, every configuration; results compared bit-for-bit (NaN by NaN-ness; unary minus bit-for-bit incl. NaN payload) with the hardware/glibc scalar result under the same mode; binary32 + - * / sqrt also against a binary64 recomputation rounded once (disagreement between the two oracles = harness error, not a violation); MXCSR/x87 control words compared before/after.",
+        "note": "Trusted: host FPU and glibc as the IEEE reference, fesetround, compilers honouring -frounding-math. Pairs are sampled (lattice cross product + random), never exhaustive.",
+    },
     "C08": {
         "technique": "property-based testing: enumerated (every n in 0..width+2 x every element offset in a 64-element window, every lane index) + rapidcheck memory operations against a byte-array memory model with sentinels, under a signal guard, per build configuration incl. -O0",
         "level": "Generated-input search over (operation form, n, offset, payload, indices) for load/aligned_load/store/aligned_store (run-time and compile-time counts), gather/scatter (negative and positive, pairwise distinct active indices), extract<I>/insert<I>, to_array and the array constructor on all 40 vector types; oracle: loaded lanes = p[0..min(n,w)) then zeros; after a store/scatter the two-page sentinel buffer differs from its pre-image exactly in the addressed elements; faults are outcomes (an aligned-only instruction in an unaligned form shows up as SIGSEGV, -O0 builds map intrinsics literally).",
